@@ -796,7 +796,7 @@ func (it *Interp) unop(fr *frame, x *ssa.UnOp) Value {
 	case token.XOR:
 		return c.BVNot(v.(*smt.Term))
 	case token.ARROW:
-		return it.chanRecv(v, x.CommaOk)
+		return it.chanRecv(v, x.CommaOk, x.X.Type())
 	}
 	it.abort("unsupported unop %v on %T", x.Op, v)
 	return nil
